@@ -2158,28 +2158,6 @@ def h_merge_fold(ctx, p):
             'the operands must not be modified', p)
 
 
-def h_delegate(ctx, p):
-    """the method forwards to the same-named method of its inner (core) iterator and returns the result:
-    exactly one call in the body, to that method, whose result is the return value"""
-    body = ctx.body
-    nm = body.name
-    ctx.classes['delegated'] += 1
-    calls = [(bi, t) for bi, t in body.calls()]
-    ok = len(calls) == 1
-    if ok:
-        bi, t = calls[0]
-        c = t['callee']
-        ok = c['name'] == nm and (c.get('trait') or '').endswith('Iterator') and not c.get('local_body')
-        # the receiver is (a reference to / a move of) a field of self
-        op = t['operands'][0] if t['operands'] else None
-        pl = (op.get('move') or op.get('copy')) if op else None
-        ok = ok and pl is not None
-        # the call result is what is returned
-        d = t['dest']
-        ok = ok and d['local'] == 0 and not d['proj']
-    ctx.req('ONCE', ok, nm, 'must forward to the same method of the wrapped iterator exactly once and return its result', p)
-
-
 LOSSLESS = ('IntoIterator::into_iter', 'Iterator::copied', 'Iterator::cloned', 'Iterator::by_ref')
 DRIVERS = ('Iterator::next', 'Iterator::for_each', 'Iterator::fold', 'Iterator::try_for_each', 'Iterator::try_fold')
 
